@@ -183,6 +183,40 @@ theorem render_of_tobits (fmt : String) (sb : Nat) (v : DV) :
     · simp [hr, Res.bind, padOf_1_0]
   · simp [Res.bind]
 
+/-- rendering a whole tree with ONE options value renders every raw leaf independently: the
+    k-th rendered leaf is exactly what rendering that leaf alone gives (no state is carried from
+    one rendered value to the next, whatever the format) … -/
+theorem render_tree_pointwise (fmt : String) (sb : Nat) (t : VTree) :
+    (renderTree fmt sb t).leaves = t.leaves.map (toValueRaw fmt sb) := by
+  induction t with
+  | raw v => rfl
+  | other => rfl
+  | nil => rfl
+  | cons h t ihh iht => simp [renderTree, RTree.leaves, VTree.leaves, ihh, iht]
+
+/-- … so, by `render_of_tobits`, every leaf of the rendered tree encodes that leaf's own bits -/
+theorem render_tree_leaf_bits (fmt : String) (sb : Nat) (t : VTree) :
+    (renderTree fmt sb t).leaves = t.leaves.map (fun v => (toBits v).bind (render fmt sb)) := by
+  rw [render_tree_pointwise]
+  congr 1
+  funext v
+  exact render_of_tobits fmt sb v
+
+/-- rendering the same value twice in one conversion gives the same rendering twice -/
+theorem render_twice (fmt : String) (sb : Nat) (v : DV) :
+    (renderTree fmt sb (.cons (.raw v) (.cons (.raw v) .nil))).leaves
+      = [toValueRaw fmt sb v, toValueRaw fmt sb v] := rfl
+
+theorem ofLeaves_leaves (vs : List DV) : (VTree.ofLeaves vs).leaves = vs := by
+  induction vs with
+  | nil => rfl
+  | cons v vs ih => simp [VTree.ofLeaves, VTree.leaves, ih]
+
+example : (renderTree "md5" 10 (.cons (.raw ⟨bytesToBits [0x61], 0, 8, false, false⟩)
+      (.cons .other (.cons (.raw ⟨bytesToBits [0x61, 0x62, 0x63], 0, 24, false, false⟩) .nil)))).leaves
+    = [.ok (.text "0cc175b9c0f1b6a831c399e269772661".toList), .ok (.text "900150983cd24fb0d6963f7d28e17f72".toList)] := by
+  decide +kernel
+
 /-- the bytes every renderer starts from (`CopyBits`) are the bits, zero padded on the RIGHT by
     fewer than 8 bits -/
 theorem string_is_bits (bits : Bits) :
